@@ -11,6 +11,7 @@ EXPLANATION = (
     "never after pay, and between readiness and pay's return nothing is answered except on add_payment_attempt==Err; (S6) "
     "after pay, failure only on pay==Err and settlement only with pay's Ok payload; (S7) in every Datastore impl the Free "
     "marker is written generation-guarded with the generation observed when the Pending record was read/written. The "
+    "(S8) a classified HTLC is answered only through the lifecycle; (S9) the provider clauses (C15-V*, C16-D) behind `nothing pending or complete`. The "
     "schedule/crash-point space itself is not enumerated; these are the mechanisms every schedule relies on."
 )
 ASSUMPTIONS = [
@@ -30,4 +31,10 @@ def run(F, X, rep):
     R.s4_mark_failed_guards(C, rep, "C02-S4")
     R.s5_fail_requests_prepay_only(C, rep, "C02-S5")
     R.s6_after_pay(C, rep, "C02-S6")
+    import rules_hh as H
+    if H.need_hh(C, rep, "C02-S8"):
+        H.p4b_answer_only_via_lifecycle(C, rep, "C02-S8")
     S.s7_generation_guard(C, rep, "C02-S7")
+    import rules_provider as P
+    P.v_wait_payment(C, rep, "C02-S9")
+    P.d_dispatch(C, rep, "C02-S9")
